@@ -59,7 +59,9 @@ type strEval struct {
 	busy    map[strKey]bool
 	// liveEdge, when set, restricts evaluation to a cut CFG: a phi edge coming from a
 	// predecessor that is unreachable (or over a removed edge) contributes nothing.
-	liveEdge func(pred, blk *ssa.BasicBlock) bool
+	liveEdge func(pred, blk *ssa.BasicBlock, fr *frame) bool
+	// liveRet, when set, says whether a return of an inlined helper is reachable on the cut CFG
+	liveRet func(ret *ssa.Return, fr *frame) bool
 }
 
 type synthBinding struct {
@@ -127,7 +129,7 @@ func (e *strEval) eval(v ssa.Value, fr *frame) ([]string, bool) {
 	case *ssa.Phi:
 		var out []string
 		for i, ed := range x.Edges {
-			if e.liveEdge != nil && fr.caller == nil && i < len(x.Block().Preds) && !e.liveEdge(x.Block().Preds[i], x.Block()) {
+			if e.liveEdge != nil && i < len(x.Block().Preds) && !e.liveEdge(x.Block().Preds[i], x.Block(), fr) {
 				continue
 			}
 			s, ok := e.eval(ed, fr)
@@ -242,6 +244,9 @@ func (e *strEval) evalCall(call *ssa.Call, resIdx int, fr *frame) ([]string, boo
 				continue
 			}
 			found = true
+			if e.liveRet != nil && !e.liveRet(ret, cfr) {
+				continue
+			}
 			s, ok := e.eval(ret.Results[resIdx], cfr)
 			if !ok {
 				return nil, false
